@@ -6,6 +6,7 @@ pub struct Prop {
     pub parts: fn() -> Vec<Box<dyn DynPart>>,
 }
 
+pub mod c01;
 pub mod c02;
 pub mod c10;
 pub mod c12;
@@ -14,6 +15,7 @@ pub mod c14;
 pub mod c16;
 
 pub const ALL: &[Prop] = &[
+    Prop { id: "C01", run: c01::run, parts: c01::parts },
     Prop { id: "C02", run: c02::run, parts: c02::parts },
     Prop { id: "C10", run: c10::run, parts: c10::parts },
     Prop { id: "C12", run: c12::run, parts: c12::parts },
